@@ -151,6 +151,24 @@ func verifDefaultPort(out *verifkit.Trace, sim *verifsim.Sim, rng *rand.Rand) {
 				out.Emit(verifkit.M{"ev": "noconn", "conns": len(conns) - 1})
 			}
 		}
+		/* webfinger handles whose domain part is this literal with a zone that smuggles a header line: the
+		   connection may be attempted (the zone is ignored when dialling) but no request may carry the line -
+		   in fact none can be sent, the certificate does not name "address%zone" */
+		if strings.HasPrefix(st.authority, "[") {
+			for i, zone := range []string{"%lo\r\nX-Injected: yes", "%25lo%0d%0aX-Injected:%20yes", "%eth0 HTTP/1.0\r\n\r\nGET /second"} {
+				handle := "alice@" + strings.TrimSuffix(st.authority, "]") + zone + "]:443"
+				before := sim.ConnCount()
+				verifkit.Try(func() { FetchUserInput("@" + handle) })
+				sim.Quiesce(time.Second)
+				conns := sim.Conns()[before:]
+				out.Emit(verifkit.M{"ev": "case", "id": 220000 + i, "mode": 13, "desc": "@" + handle, "conns": len(conns)})
+				for _, c := range conns {
+					ev := verifsim.ConnEvent(c, st.authority+":443", verifsim.AcceptWebfinger, "/.well-known/webfinger", "resource=acct:alice@"+st.authority+":443")
+					ev["noreq_ok"] = true
+					out.Emit(ev)
+				}
+			}
+		}
 		/* port numbers that are no port numbers: nothing may be dialled for them - in particular not the
 		   default port, which is what they are congruent to modulo 2^16 or 2^32 */
 		for i, port := range []string{"4294967739", "8589935035", "65979", "65536", "18446744073709552059", "99999"} {
@@ -221,6 +239,20 @@ func TestVerifRequests(t *testing.T) {
 			expect, hosts = append(expect, u), append(hosts, h1)
 			verifkit.Try(func() { FetchUserInput(u.typed) })
 		case 1: /* Location header */
+			if rng.Intn(3) == 0 {
+				/* a Location that is relative to the address that issued it: path-relative, query-only, up a level */
+				from := "/dir/sub/r" + tag
+				forms := []struct{ loc, path, query string }{
+					{"next" + tag + "?page=2", "/dir/sub/next" + tag, "page=2"}, {"?page=" + tag, from, "page=" + tag},
+					{"../up" + tag, "/dir/up" + tag, ""}, {"./here" + tag + "?a=b c", "/dir/sub/here" + tag, "a=b c"}, {"/abs" + tag, "/abs" + tag, ""}}
+				f := forms[rng.Intn(len(forms))]
+				desc = "Location: " + f.loc + " (issued by " + from + ")"
+				h1.Set(from, &verifsim.Route{Raw: []byte("HTTP/1.1 302 Found\r\nLocation: " + strings.ReplaceAll(f.loc, " ", "%20") + "\r\n\r\n")})
+				expect = append(expect, verifURL{path: from}, verifURL{path: f.path, query: f.query})
+				hosts = append(hosts, h1, h1)
+				verifkit.Try(func() { FetchUserInput(h1.URL(from)) })
+				break
+			}
 			u := verifHostileURL(rng, h2, tag)
 			desc = "Location: " + u.typed
 			h1.Set("/r"+tag, &verifsim.Route{Raw: []byte("HTTP/1.1 302 Found\r\nLocation: " + u.typed + "\r\n\r\n")})
